@@ -28,12 +28,12 @@ def hexstr(c, name, n):
     return s
 
 
-def radio_uri(c, dongle_expr, with_path=True):
-    """Declares the inputs of one shape of radio URI after the dongle id and returns (uri spec text, expectations)."""
+def radio_uri(c, dongle_expr, nch, slash=(False,), limits=(0, 1, 3)):
+    """Declares the inputs of one shape of radio URI after the dongle id and returns (uri spec text, expectations).
+    nch = number of channel digits (0: no path at all)"""
     exp = {'channel': '2', 'rate': '2', 'address': repr(E7), 'limit': None}
     uri = "'radio://' + " + dongle_expr
-    if with_path:
-        nch = c.choice('channel_digits', [1, 2, 3])
+    if nch:
         c.str('chan', nch, 48, 57)
         uri += " + '/' + chan"
         exp['channel'] = 'int(chan)'
@@ -46,9 +46,9 @@ def radio_uri(c, dongle_expr, with_path=True):
                 hexstr(c, 'addr', na)
                 uri += " + '/' + addr"
                 exp['address'] = address_spec('addr', na)
-    if c.choice('trailing_slash', [False, True]):
+    if c.choice('trailing_slash', list(slash)):
         uri += " + '/'"
-    nq = c.choice('rate_limit_digits', [0, 1, 2, 6])
+    nq = c.choice('rate_limit_digits', list(limits))
     if nq:
         c.str('rl', nq, 48, 57)
         uri += " + '?rate_limit=' + rl"
@@ -67,19 +67,530 @@ def check_parse(c, devid_expr, exp):
         c.ensure('rate-limit', 'result[4] is None' if exp['limit'] is None else 'result[4] == ' + exp['limit'])
 
 
-def _numeric(nd):
-    @contract('C20', 'parse_uri.index-dongle.%d' % nd, [PARSE],
+def _numeric(nd, nch, limits=(0, 1, 3), suffix='', **opts):
+    @contract('C20', 'parse_uri.index-dongle.%d.%d%s' % (nd, nch, suffix), [PARSE],
               clause='parse_uri returns (dongle, channel, rate, address, rate limit) of every well-formed radio URI with a '
-                     '%d-digit dongle index' % nd,
-              bounded='rate_limit value of 1, 2 or 6 digits', max_paths=6000)
+                     '%d-digit dongle index and a %d-digit channel; rate and address present or omitted, address of 1..10 hex '
+                     'digits of either case, rate_limit option absent or present' % (nd, nch),
+              bounded='rate_limit value of %s digits' % ' or '.join(str(x) for x in limits if x), max_paths=6000, **opts)
     def k(c):
         c.str('dongle', nd, 48, 57)
-        uri, exp = radio_uri(c, 'dongle')
+        uri, exp = radio_uri(c, 'dongle', nch, limits=limits)
         c.snapshot('uri', uri)
         c.call(PARSE, c.get('uri'))
         check_parse(c, 'int(dongle)', exp)
     return k
 
 
-for _nd in (1,):
-    _numeric(_nd)
+for _nd in range(1, 10):            # the code's own split between index and serial number is len(dongle) < 10
+    for _nch in (1, 2, 3):
+        _numeric(_nd, _nch)
+        _numeric(_nd, _nch, limits=(2, 6), suffix='.long-rate-limit', thorough_only=True)
+
+
+@contract('C20', 'parse_uri.trailing-slash', [PARSE],
+          clause='a trailing slash after the last field changes nothing',
+          bounded='1-digit dongle, 1..3-digit channel; rate_limit value of 1 or 3 digits', max_paths=6000)
+def trailing_slash(c):
+    c.str('dongle', 1, 48, 57)
+    uri, exp = radio_uri(c, 'dongle', c.choice('channel_digits', [1, 2, 3]), slash=(True,))
+    c.snapshot('uri', uri)
+    c.call(PARSE, c.get('uri'))
+    check_parse(c, 'int(dongle)', exp)
+
+
+@contract('C20', 'parse_uri.omitted-channel', [PARSE],
+          clause='omitted trailing fields take their defaults: a URI that names only the dongle (radio://<dongle>, with or '
+                 'without trailing slash / rate_limit option) parses to channel 2, 2M, address E7E7E7E7E7',
+          bounded='dongle index of 1, 2 or 9 digits; rate_limit value of 1 or 3 digits', thorough_only=True)
+def omitted_channel(c):
+    # FINDING on the unchanged tree (kept, thorough tier only until triaged): every one of these URIs raises ValueError
+    # (int('') in parse_uri: ''.split('/') == ['']), e.g. radio://0, radio://0/, radio://0?rate_limit=5
+    c.str('dongle', c.choice('dongle_digits', [1, 2, 9]), 48, 57)
+    uri, exp = radio_uri(c, 'dongle', 0, slash=(False, True))
+    c.snapshot('uri', uri)
+    c.call(PARSE, c.get('uri'))
+    check_parse(c, 'int(dongle)', exp)
+
+
+# ------------------------------------------------------------------------- serial-number dongle ids
+
+SERIALS = ('E7E7E7E7E7', 'ABCDEF0123', '0123456789', '4000000012', '00000000000000A1', 'E7E7E7E7E7')
+CRZ = 'cflib.drivers.crazyradio'
+
+
+def plugged_in(c, serials=SERIALS):
+    """the dongles that are plugged in (USB enumeration is hardware: stubbed)"""
+    c.let('SERIALS', tuple(serials))
+    c.patch(CRZ + ':get_serials', c.ext('get_serials', returns={'()': lambda *_a: tuple(serials)}))
+
+
+def _serial(n):
+    @contract('C20', 'parse_uri.serial-dongle.%d' % n, [PARSE],
+              clause='a dongle id that is a serial number (10 or more characters) selects the plugged-in dongle with that '
+                     'serial number, compared case-insensitively, also when the serial consists of decimal digits only; an '
+                     'unknown serial is an error; the other fields parse as usual',
+              bounded='serial numbers of %d characters [0-9A-Za-z]; the enumerated dongles are the 6 of SERIALS (one of '
+                      'them listed twice: the first one is taken); rest of the URI: /<2 digits>/<rate>/<10 hex digits>' % n)
+    def k(c):
+        plugged_in(c)
+        c.str('dongle', n, 48, 122)
+        c.require('all(48 <= ord(ch) <= 57 or 65 <= ord(ch) <= 90 or 97 <= ord(ch) <= 122 for ch in dongle)')
+        c.str('chan', 2, 48, 57)
+        hexstr(c, 'addr', 10)
+        rate = c.choice('rate', ['250K', '1M', '2M'])
+        c.snapshot('uri', "'radio://' + dongle + '/' + chan + '/%s/' + addr" % rate)
+        c.call(PARSE, c.get('uri'))
+        c.snapshot('wanted', 'dongle.upper()')
+        c.ensure('found-iff-plugged-in', 'iff(raised is None, any(s == wanted for s in SERIALS))')
+        if c.get('raised') is None:
+            c.ensure('index-of-first-dongle-with-that-serial',
+                     'forall(range(len(SERIALS)), lambda i: implies(SERIALS[i] == wanted and '
+                     'all(SERIALS[j] != wanted for j in range(i)), result[0] == i))')
+            c.ensure('is-an-index', 'isinstance(result[0], int) and 0 <= result[0] < len(SERIALS)')
+            c.ensure('channel', 'result[1] == int(chan)')
+            c.ensure('data-rate', 'result[2] == %d' % RATE_CODE[rate])
+            c.ensure('address-bytes-in-written-order-left-zero-padded', 'tuple(result[3]) == ' + address_spec('addr', 10))
+            c.ensure('rate-limit', 'result[4] is None')
+        else:
+            c.ensure('error-not-wrong-uri-type', "raised == 'Exception'")
+    return k
+
+
+for _n in (10, 16):
+    _serial(_n)
+
+
+# ------------------------------------------------------------------------- RadioDriver.connect applies the parsed settings
+
+def radio_hardware(c, version=0.53, returns=None):
+    """RadioManager (shared USB dongle + its service thread) and the link thread are hardware / threads: recording stubs"""
+    radio = c.ext('radio', attrs={'version': version}, returns=returns or {})
+    c.patch(RAD + ':RadioManager', c.ext('RadioManager', returns={'open': lambda *_a: radio}))
+    thread = c.ext('link_thread')
+    c.patch(RAD + ':_RadioDriverThread', c.ext('_RadioDriverThread', returns={'()': lambda *_a: thread}))
+    return radio
+
+
+@contract('C20', 'radio.connect', [RAD + ':RadioDriver.connect', RAD + ':RadioDriver.__init__', PARSE],
+          clause='connecting to a radio URI opens exactly the named dongle once and applies exactly the channel, data rate '
+                 'and address of the URI to it; the rate limit of the URI is the one handed to the link thread',
+          bounded='1-digit dongle index, rate_limit absent or of 2 digits, address absent or of 1 / 10 hex digits '
+                  '(all URI shapes are covered for parse_uri itself by the parse_uri.* contracts)', max_paths=3000)
+def radio_connect(c):
+    radio = radio_hardware(c)
+    c.str('dongle', 1, 48, 57)
+    nch = c.choice('channel_digits', [1, 2, 3])
+    exp = {'channel': '2', 'rate': '2', 'address': repr(E7), 'limit': 'None'}
+    uri = "'radio://' + dongle"
+    c.str('chan', nch, 48, 57)
+    uri += " + '/' + chan"
+    exp['channel'] = 'int(chan)'
+    rate = c.choice('rate', [None, '250K', '1M', '2M'])
+    if rate is not None:
+        uri += " + '/%s'" % rate
+        exp['rate'] = str(RATE_CODE[rate])
+        na = c.choice('address_digits', [0, 1, 10])
+        if na:
+            hexstr(c, 'addr', na)
+            uri += " + '/' + addr"
+            exp['address'] = address_spec('addr', na)
+    if c.choice('with_rate_limit', [False, True]):
+        c.str('rl', 2, 48, 57)
+        uri += " + '?rate_limit=' + rl"
+        exp['limit'] = 'int(rl)'
+    c.snapshot('uri', uri)
+    drv = c.new(RAD + ':RadioDriver')
+    c.let('drv', drv)
+    c.let('stat_cb', c.ext('stat_cb'))
+    c.let('err_cb', c.ext('err_cb'))
+    c.reset_trace()
+    c.call((drv, 'connect'), c.get('uri'), c.get('stat_cb'), c.get('err_cb'))
+    c.ensure('no-exception', 'raised is None')
+    if c.get('raised') is None:
+        c.ensure('exactly-the-named-dongle-opened-once',
+                 "len(sent('RadioManager.open')) == 1 and sent('RadioManager.open')[0][1] == (int(dongle),)")
+        c.ensure('channel-applied-once', "len(sent('radio.set_channel')) == 1 and sent('radio.set_channel')[0][1] == (%s,)" % exp['channel'])
+        c.ensure('data-rate-applied-once', "len(sent('radio.set_data_rate')) == 1 and sent('radio.set_data_rate')[0][1] == (%s,)" % exp['rate'])
+        c.ensure('address-applied-once', "len(sent('radio.set_address')) == 1 and tuple(sent('radio.set_address')[0][1][0]) == %s" % exp['address'])
+        c.ensure('nothing-else-on-the-radio', "all(n in ('radio.set_channel', 'radio.set_data_rate', 'radio.set_address', 'radio.set_arc') "
+                 "for n in calls('radio.'))")
+        c.ensure('settings-before-link-thread', "calls('')[-2:] == ('_RadioDriverThread', 'link_thread.start')")
+        c.ensure('link-thread-gets-radio-and-rate-limit', "len(sent('_RadioDriverThread')) == 1 and "
+                 "is_same(sent('_RadioDriverThread')[0][1][0], radio) and sent('_RadioDriverThread')[0][1][6] == %s and "
+                 "is_same(sent('_RadioDriverThread')[0][1][4], err_cb)" % exp['limit'])
+        c.ensure('driver-state', "drv.uri == uri and drv.rate_limit == %s" % exp['limit'])
+
+
+# ------------------------------------------------------------------------- scanning reports URIs that parse back
+
+def be40(x):
+    return '(%s)' % ', '.join('%s // %d %% 256' % (x, 256 ** (4 - i)) for i in range(5))
+
+
+@contract('C20', 'radio.scan-roundtrip', [RAD + ':RadioDriver.scan_interface', RAD + ':RadioDriver._scan_radio_channels', PARSE],
+          clause='every URI reported by a scan parses back to dongle 0, the channel that answered, the data rate the radio was '
+                 'set to for that scan and the address that was scanned (the address given, most significant byte first, or '
+                 'E7E7E7E7E7); the address is applied to the radio before scanning',
+          bounded='one answering channel per data rate (the same symbolic channel 0..125 in the three scans)', max_paths=3000)
+def scan_roundtrip(c):
+    plugged_in(c)
+    ch = c.int('ch', 0, 125)
+    radio = radio_hardware(c, returns={'scan_channels': lambda *_a: (ch,)})
+    given = c.choice('address_given', [False, True])
+    address = c.int('address', 0, 2 ** 40 - 1) if given else c.let('address', None)
+    drv = c.new(RAD + ':RadioDriver')
+    c.reset_trace()
+    c.call((drv, 'scan_interface'), address)
+    c.ensure('no-exception', 'raised is None')
+    if c.get('raised') is not None:
+        return
+    c.snapshot('found', 'result')
+    c.snapshot('scan_trace', 'trace')
+    c.snapshot('want_addr', be40('address') if given else repr(E7))
+    c.ensure('radio-sequence', "tuple(e[0] for e in scan_trace if e[0].startswith('radio.')) == "
+             + repr((('radio.set_address',) if given else ()) + ('radio.set_arc',) + ('radio.set_data_rate', 'radio.scan_channels') * 3
+                    + ('radio.close',)))
+    c.ensure('rates-scanned-in-order', "tuple(e[1] for e in scan_trace if e[0] == 'radio.set_data_rate') == ((0,), (1,), (2,))")
+    if given:
+        c.ensure('address-applied-before-scanning', "tuple([e for e in scan_trace if e[0] == 'radio.set_address'][0][1][0]) == want_addr")
+    c.ensure('all-channels-scanned', "all(e[1][0] == 0 and e[1][1] == 125 for e in scan_trace if e[0] == 'radio.scan_channels')")
+    c.ensure('one-uri-per-answer', 'len(found) == 3')
+    for k in range(3):
+        c.snapshot('u', 'found[%d][0]' % k)
+        c.call(PARSE, c.get('u'))
+        c.ensure('scan-%d-parses-back' % k, 'raised is None')
+        if c.get('raised') is None:
+            c.ensure('scan-%d-dongle-channel-rate' % k, 'result[0] == 0 and result[1] == ch and result[2] == %d and result[4] is None' % k)
+            c.ensure('scan-%d-address' % k, 'tuple(result[3]) == want_addr')
+
+
+# ------------------------------------------------------------------------- one driver per scheme
+
+CRTP = 'cflib.crtp'
+USB = 'cflib.crtp.usbdriver'
+TCP = 'cflib.crtp.tcpdriver'
+UDP = 'cflib.crtp.udpdriver'
+SER = 'cflib.crtp.serialdriver'
+PRRT = 'cflib.crtp.prrtdriver'
+
+DRIVERS = {            # driver class -> (module, the scheme prefix it owns)
+    'RadioDriver': (RAD, 'radio://'),
+    'UsbDriver': (USB, 'usb://'),
+    'SerialDriver': (SER, 'serial://'),
+    'UdpDriver': (UDP, 'udp://'),
+    'PrrtDriver': (PRRT, 'prrt://'),
+    'TcpDriver': (TCP, 'tcp://'),
+}
+# recording stubs that stand for the hardware / sockets / threads each driver opens once it has accepted a URI
+HARDWARE_OF = {
+    'RadioDriver': ('RadioManager', 'radio', '_RadioDriverThread', 'link_thread'),
+    'UsbDriver': ('CfUsb', 'cfusb', '_UsbReceiveThread', 'usb_thread'),
+    'SerialDriver': ('serial_devices', 'UARTTransport', 'serial_CPX', 'serial_cpx', 'serial_thread_cls', 'serial_thread'),
+    'UdpDriver': ('udp_socket_module', 'udp_socket'),
+    'PrrtDriver': (),
+    'TcpDriver': ('SocketTransport', 'tcp_CPX', 'tcp_cpx', 'tcp_thread_cls', 'tcp_thread'),
+}
+
+
+def hardware(c):
+    """every constructor through which a driver reaches hardware, a socket or a thread is a recording stub; the python
+    prrt binding is not installed (as in the sandbox)"""
+    radio_hardware(c)
+    plugged_in(c)
+    cfusb = c.ext('cfusb', attrs={'dev': True})
+    usb_thread = c.ext('usb_thread')
+    c.patch(USB + ':CfUsb', c.ext('CfUsb', returns={'()': lambda *_a: cfusb}))
+    c.patch(USB + ':_UsbReceiveThread', c.ext('_UsbReceiveThread', returns={'()': lambda *_a: usb_thread}))
+    tcp_cpx, tcp_thread = c.ext('tcp_cpx'), c.ext('tcp_thread')
+    c.patch(TCP + ':SocketTransport', c.ext('SocketTransport'))
+    c.patch(TCP + ':CPX', c.ext('tcp_CPX', returns={'()': lambda *_a: tcp_cpx}))
+    c.patch(TCP + ':_CPXReceiveThread', c.ext('tcp_thread_cls', returns={'()': lambda *_a: tcp_thread}))
+    udp_socket = c.ext('udp_socket')
+    c.patch(UDP + ':socket', c.ext('udp_socket_module', attrs={'AF_INET': 2, 'SOCK_DGRAM': 2}, returns={'socket': lambda *_a: udp_socket}))
+    ser_cpx, ser_thread = c.ext('serial_cpx'), c.ext('serial_thread')
+    c.patch(SER + ':SerialDriver.get_devices', c.ext('serial_devices', returns={'()': lambda *_a: c.dict([('ttyUSB0', '/dev/ttyUSB0')])}))
+    c.patch(SER + ':UARTTransport', c.ext('UARTTransport'))
+    c.patch(SER + ':CPX', c.ext('serial_CPX', returns={'()': lambda *_a: ser_cpx}))
+    c.patch(SER + ':_CPXReceiveThread', c.ext('serial_thread_cls', returns={'()': lambda *_a: ser_thread}))
+    c.patch(PRRT + ':prrt_installed', False)
+
+
+FOREIGN_LENGTHS = (0, 1, 3, 5, 6, 7, 8, 9, 10, 12, 16)
+
+
+def _foreign(driver):
+    mod, prefix = DRIVERS[driver]
+
+    @contract('C20', 'drivers.foreign-uri.' + driver, [mod + ':%s.connect' % driver, mod + ':%s.__init__' % driver],
+              clause='%s.connect refuses every URI that does not start with its own scheme prefix %r with WrongUriType, before '
+                     'any side effect (nothing opened, driver state untouched) - so no URI of another or of an unknown scheme '
+                     'is ever claimed by this driver' % (driver, prefix),
+              bounded='URIs of length %s over the printable ASCII characters (each character free)' % (FOREIGN_LENGTHS,))
+    def k(c):
+        hardware(c)
+        n = c.choice('length', list(FOREIGN_LENGTHS))
+        c.str('uri', n)
+        c.require('not uri.startswith(%r)' % prefix)
+        drv = c.new(mod + ':' + driver)
+        c.let('drv', drv)
+        c.snapshot('fields_before', 'dict(drv.__dict__)')
+        c.reset_trace()
+        c.call((drv, 'connect'), c.get('uri'), c.ext('stat_cb'), c.ext('err_cb'))
+        c.ensure('wrong-uri-type', "raised == 'WrongUriType'")
+        c.ensure('nothing-opened', 'len(trace) == 0')
+        c.ensure('driver-untouched', 'dict(drv.__dict__) == fields_before')
+    return k
+
+
+for _d in DRIVERS:
+    _foreign(_d)
+
+
+def driver_list(c, serial):
+    """the driver list as the real init_drivers builds it (USE_CFLINK unset: the python drivers)"""
+    c.patch(CRTP + ':os', c.ext('os', returns={'getenv': lambda *_a: None}))
+    c.patch(CRTP + ':CLASSES', c.list([]))
+    c.call(CRTP + ':init_drivers', enable_serial_driver=serial)
+    c.require('raised is None')
+
+
+@contract('C20', 'drivers.init_drivers', [CRTP + ':init_drivers'],
+          clause='the driver list holds each python driver exactly once, with and without the optional serial driver')
+def init_drivers(c):
+    serial = c.choice('enable_serial_driver', [False, True])
+    debug = c.choice('enable_debug_driver', [False, True])
+    c.patch(CRTP + ':os', c.ext('os', returns={'getenv': lambda *_a: None}))
+    c.let('classes', c.patch(CRTP + ':CLASSES', c.list([])))
+    c.call(CRTP + ':init_drivers', debug, serial)
+    c.ensure('no-exception', 'raised is None')
+    c.ensure('driver-list', '[k.__name__ for k in classes] == %r' % (
+        ['RadioDriver', 'UsbDriver'] + (['SerialDriver'] if serial else []) + ['UdpDriver', 'PrrtDriver', 'TcpDriver'],))
+
+
+# URI -> the driver that must be selected / None (no driver) / the error of the one driver that claims the scheme
+SELECTION = [
+    ('radio://0/80/2M/E7E7E7E7E7', 'RadioDriver'), ('radio://1/5', 'RadioDriver'),
+    ('usb://0', 'UsbDriver'), ('usb://12', 'UsbDriver'),
+    ('udp://127.0.0.1:7777', 'UdpDriver'),
+    ('tcp://192.168.4.1:5000', 'TcpDriver'),
+    ('serial://ttyUSB0', 'SerialDriver'),
+    ('prrt://10.0.0.1:5000', 'PrrtDriver'),
+    ('bogus://something', None), ('radiox://0/80/2M', None), ('', None), ('RADIO://0/80/2M', None), (' usb://0', None),
+    ('xtcp://1.2.3.4:5', None), ('tcp:/1.2.3.4:5', None), ('debug://0/0', None), ('0', None), ('://', None),
+]
+
+
+@contract('C20', 'drivers.selection', [CRTP + ':get_link_driver', CRTP + ':init_drivers'] + [
+          '%s:%s.connect' % (DRIVERS[d][0], d) for d in DRIVERS],
+          clause='with the real driver list (with and without the serial driver) every scheme is claimed by exactly its own '
+                 'driver: get_link_driver returns an instance of that driver and only that driver touches hardware; an unknown '
+                 'scheme yields None and nothing is opened',
+          bounded='the %d URIs of SELECTION (for all URIs: drivers.foreign-uri.* and drivers.first-accepting-driver)' % len(SELECTION))
+def selection(c):
+    serial = c.choice('enable_serial_driver', [False, True])
+    k = c.choice('uri_index', list(range(len(SELECTION))))
+    uri, want = SELECTION[k]
+    hardware(c)
+    driver_list(c, serial)
+    if want == 'SerialDriver' and not serial:
+        want = None
+    c.let('uri', uri)
+    c.reset_trace()
+    c.call(CRTP + ':get_link_driver', uri, c.ext('stat_cb'), c.ext('err_cb'))
+    if want is None:
+        c.ensure('no-driver', 'raised is None and result is None')
+        c.ensure('nothing-opened', 'len(trace) == 0')
+    elif want == 'PrrtDriver':
+        # the binding is not installed: the driver that owns the scheme reports it; no other driver is tried afterwards
+        c.ensure('claimed-by-prrt-driver', "raised == 'Exception' and str(exc) == 'PRRT is missing'")
+        c.ensure('nothing-opened', 'len(trace) == 0')
+    else:
+        c.ensure('driver-of-the-scheme', "raised is None and typename(result) == %r" % want)
+        c.ensure('only-its-hardware', 'len(trace) > 0 and all(e[0].split(".")[0] in %r for e in trace)' % (HARDWARE_OF[want],))
+    if want == 'UsbDriver':
+        c.ensure('usb-device-index', "len(sent('CfUsb')) == 1 and sent('CfUsb')[0][2] == {'devid': %d}" % int(uri[6:]))
+    if want == 'TcpDriver':
+        c.ensure('tcp-endpoint', "len(sent('SocketTransport')) == 1 and sent('SocketTransport')[0][1] == ('192.168.4.1', 5000)")
+    if want == 'UdpDriver':
+        c.ensure('udp-endpoint', "len(sent('udp_socket.connect')) == 1 and sent('udp_socket.connect')[0][1] == (('127.0.0.1', 7777),)")
+    if want == 'SerialDriver':
+        c.ensure('serial-device', "len(sent('UARTTransport')) == 1 and sent('UARTTransport')[0][1][0] == '/dev/ttyUSB0'")
+
+
+MALFORMED = [      # URIs of a known scheme that its driver must reject; the error is the driver's, no other driver takes over
+    ('radio://0/abc', 'ValueError'), ('radio://0/80/2M/E7E7E7E7E7E', 'Error'), ('radio://0/80/2M/E7E7E7E7E7E7', 'struct.error'),
+    ('radio://0/80/2M/G7', 'Error'), ('radio://E7E7E7E7E8/80', 'Exception'),
+    ('serial://tty USB0', 'Exception'), ('serial://nosuchport', 'Exception'), ('prrt://x', 'Exception'),
+]
+
+
+@contract('C20', 'drivers.malformed-claimed', [CRTP + ':get_link_driver'],
+          clause='a malformed URI of a known scheme yields no driver: the driver that owns the scheme raises, nothing is opened and '
+                 'no other driver takes the URI',
+          bounded='the %d URIs of MALFORMED, serial driver enabled' % len(MALFORMED))
+def malformed_claimed(c):
+    k = c.choice('uri_index', list(range(len(MALFORMED))))
+    uri, err = MALFORMED[k]
+    hardware(c)
+    driver_list(c, True)
+    c.reset_trace()
+    c.call(CRTP + ':get_link_driver', uri, c.ext('stat_cb'), c.ext('err_cb'))
+    c.ensure('error-of-the-owning-driver', 'raised == %r' % err)
+    c.ensure('nothing-opened', "all(e[0] in ('get_serials', 'serial_devices') for e in trace)")
+
+
+def stub_driver(c, i, behaviour, WUT):
+    """a driver class whose connect() accepts (behaviour 0), raises WrongUriType (1) or fails with another error (2)"""
+    def connect(I, args, kwargs):
+        if I is None:                                   # native back end: the real exception classes
+            if behaviour == 1:
+                raise WUT('not mine')
+            if behaviour == 2:
+                raise RuntimeError('cannot open')
+            return None
+        from pyvc.core import PyRaise                   # symbolic back end
+        if behaviour == 1:
+            raise PyRaise(I.call(WUT, ['not mine'], {}))
+        if behaviour == 2:
+            I.raise_py('RuntimeError', 'cannot open')
+        return None
+    inst = c.ext('inst%d' % i, returns={'connect': connect})
+    return c.ext('Driver%d' % i, returns={'()': lambda *_a: inst}), inst
+
+
+@contract('C20', 'drivers.first-accepting-driver', [CRTP + ':get_link_driver'],
+          clause='get_link_driver asks the drivers in list order and returns the first instance whose connect does not raise '
+                 'WrongUriType, passing the URI and both callbacks through; None if all refuse; another error of a driver ends the '
+                 'search with that error; drivers after the selected one are not even instantiated',
+          bounded='driver lists of 0..3 drivers, each accepting / refusing / failing')
+def first_accepting(c):
+    WUT = c.cls('cflib.crtp.exceptions:WrongUriType')
+    n = c.choice('drivers', [0, 1, 2, 3])
+    beh = [c.choice('behaviour%d' % i, [0, 1, 2]) for i in range(n)]
+    stubs = [stub_driver(c, i, beh[i], WUT) for i in range(n)]
+    c.patch(CRTP + ':CLASSES', c.list([cls for cls, _ in stubs]))
+    c.str('uri', 5)
+    c.let('stat_cb', c.ext('stat_cb'))
+    c.let('err_cb', c.ext('err_cb'))
+    for i, (_, inst) in enumerate(stubs):
+        c.let('inst%d' % i, inst)
+    c.call(CRTP + ':get_link_driver', c.get('uri'), c.get('stat_cb'), c.get('err_cb'))
+    first = [i for i in range(n) if beh[i] != 1]
+    tried = n if not first else first[0] + 1
+    c.ensure('asked-in-order-up-to-the-first-that-does-not-refuse', 'calls("") == %r' % (
+        tuple(x for i in range(tried) for x in ('Driver%d' % i, 'inst%d.connect' % i)),))
+    c.ensure('uri-and-callbacks-passed-through', 'all(e[1][0] == uri and is_same(e[1][1], stat_cb) and is_same(e[1][2], err_cb) '
+             'for e in trace if e[0].endswith(".connect"))')
+    if not first:
+        c.ensure('none-when-all-refuse', 'raised is None and result is None')
+    elif beh[first[0]] == 0:
+        c.ensure('first-accepting-instance', 'raised is None and is_same(result, inst%d)' % first[0])
+    else:
+        c.ensure('other-error-propagates', "raised == 'RuntimeError'")
+
+
+# ------------------------------------------------------------------------- open_link: failure is a notification, not an exception
+
+CF = 'cflib.crazyflie'
+
+
+def crazyflie(c):
+    """a Crazyflie with its callers / packet handler / statistics as recording stubs (constructor starts threads and
+    builds all sub-systems: out of reach, so the object is assembled field by field)"""
+    cf = c.obj(CF + ':Crazyflie', connection_requested=c.ext('connection_requested'), connection_failed=c.ext('connection_failed'),
+               link_statistics=c.ext('link_statistics'), incoming=c.ext('incoming'), packet_received=c.ext('packet_received'),
+               link=None, link_uri='', state=0)
+    c.let('cf', cf)
+    return cf
+
+
+def check_failed_notification(c, prefix):
+    c.ensure('no-exception-escapes', 'raised is None')
+    c.ensure('connection-failed-exactly-once', "len(sent('connection_failed.call')) == 1")
+    if len([e for e in c.get('trace') if e[0] == 'connection_failed.call']) == 1:
+        c.snapshot('note', "sent('connection_failed.call')[0][1]")
+        c.ensure('notification-names-the-uri', 'len(note) == 2 and note[0] == uri')
+        c.ensure('notification-text', 'note[1].startswith(%r)' % prefix)
+    c.ensure('requested-then-failed-nothing-else', "calls('connection_') == ('connection_requested.call', 'connection_failed.call')")
+    c.ensure('no-link', 'cf.link is None and cf.link_uri == uri')
+    c.ensure('connection-not-started', "len(calls('incoming.')) == 0 and len(calls('packet_received.')) == 0")
+
+
+@contract('C20', 'open_link.driver-lookup-fails', [CF + ':Crazyflie.open_link'],
+          clause='whatever the driver lookup does for a URI - no driver (None) or any exception - open_link reports exactly one '
+                 'connection_failed(uri, text) and lets nothing escape',
+          bounded='URIs of 7 free printable characters; lookup outcomes: None, Exception, ValueError, struct.error, KeyError, OSError')
+def open_link_lookup_fails(c):
+    outcome = c.choice('lookup', [None, 'Exception', 'ValueError', 'struct.error', 'KeyError', 'OSError'])
+    c.patch(CRTP + ':get_link_driver', c.ext('get_link_driver', returns={'()': (lambda *_a: None) if outcome is None else c.raiser(outcome, 'boom')}))
+    cf = crazyflie(c)
+    c.str('uri', 7)
+    c.call((cf, 'open_link'), c.get('uri'))
+    c.ensure('lookup-asked-once-for-the-uri', "len(sent('get_link_driver')) == 1 and sent('get_link_driver')[0][1][0] == uri")
+    check_failed_notification(c, 'No driver found or malformed URI: ' if outcome is None else "Couldn't load link driver: ")
+
+
+@contract('C20', 'open_link.unknown-or-malformed', [CF + ':Crazyflie.open_link', CRTP + ':get_link_driver'],
+          clause='an unknown scheme or a malformed URI of a known scheme given to open_link (real driver lookup, real drivers, with '
+                 'and without the serial driver) yields no link, exactly one connection_failed notification and no exception; '
+                 'nothing is opened',
+          bounded='the unknown-scheme URIs of SELECTION and the URIs of MALFORMED')
+def open_link_unknown(c):
+    uris = [u for u, want in SELECTION if want is None] + [u for u, _ in MALFORMED]
+    serial = c.choice('enable_serial_driver', [False, True])
+    uri = uris[c.choice('uri_index', list(range(len(uris))))]
+    claimed = uri in [u for u, _ in MALFORMED] and (serial or not uri.startswith('serial://'))
+    hardware(c)
+    driver_list(c, serial)
+    cf = crazyflie(c)
+    c.let('uri', uri)
+    c.reset_trace()
+    c.call((cf, 'open_link'), uri)
+    check_failed_notification(c, "Couldn't load link driver: " if claimed else 'No driver found or malformed URI: ' + uri)
+    c.ensure('nothing-opened', "all(e[0] in ('get_serials', 'serial_devices') or e[0].startswith('connection_') for e in trace)")
+
+
+LENIENT = ['radio://0/80/3M', 'radio://0/80/2M/E7E7E7E7E7/extra', 'radio://0/+80', 'radio://0/8_0']
+
+
+@contract('C20', 'drivers.malformed-radio-uri-accepted', [CRTP + ':get_link_driver', PARSE],
+          clause='a radio URI outside the documented grammar radio://<dongle>/<channel>/[250K,1M,2M]/<address> (unknown data-rate '
+                 'token, extra path segment, signed or underscored channel) is malformed: it yields no driver and no dongle is opened',
+          bounded='the %d URIs of LENIENT' % len(LENIENT), thorough_only=True)
+def lenient(c):
+    # FINDING on the unchanged tree (kept, thorough tier only until triaged): all four are accepted and dongle 0 is opened
+    uri = LENIENT[c.choice('uri_index', list(range(len(LENIENT))))]
+    hardware(c)
+    driver_list(c, False)
+    c.reset_trace()
+    c.call(CRTP + ':get_link_driver', uri, c.ext('stat_cb'), c.ext('err_cb'))
+    c.ensure('no-driver', 'raised is not None or result is None')
+    c.ensure('no-dongle-opened', "len(sent('RadioManager.open')) == 0")
+
+
+@contract('C20', 'radio.scan-selected-roundtrip', [RAD + ':RadioDriver.scan_selected', PARSE],
+          clause='scan_selected asks the radio for the channel and data rate of each given URI and every URI it reports parses back '
+                 'to dongle 0, the channel and the data rate that answered and the default address',
+          bounded='two URIs to scan (one with, one without a data rate), one answer with symbolic channel 0..125 and rate code 0..2')
+def scan_selected(c):
+    ch, dr = c.int('ch', 0, 125), c.int('dr', 0, 2)
+    answer = c.dict([('channel', ch), ('datarate', dr)])
+    radio = radio_hardware(c, returns={'scan_selected': lambda *_a: (answer,)})
+    drv = c.new(RAD + ':RadioDriver')
+    c.call((drv, 'connect'), 'radio://0/80/2M', c.ext('stat_cb'), c.ext('err_cb'))
+    c.require('raised is None')
+    c.reset_trace()
+    c.call((drv, 'scan_selected'), ('radio://0/10/250K', 'radio://0/125'))
+    c.ensure('no-exception', 'raised is None')
+    if c.get('raised') is not None:
+        return
+    c.ensure('asked-for-the-given-channels-and-rates', "len(sent('radio.scan_selected')) == 1 and tuple(sent('radio.scan_selected')[0][1][0]) == "
+             "({'channel': 10, 'datarate': 0}, {'channel': 125, 'datarate': 2})")
+    c.ensure('one-uri-per-answer', 'len(result) == 1')
+    c.snapshot('u', 'result[0]')
+    c.call(PARSE, c.get('u'))
+    c.ensure('parses-back', 'raised is None')
+    if c.get('raised') is None:
+        c.ensure('dongle-channel-rate-address', 'result[0] == 0 and result[1] == ch and result[2] == dr and tuple(result[3]) == %r '
+                 'and result[4] is None' % (E7,))
